@@ -72,6 +72,26 @@ fn p_vtbl_only_slot() {
 
 #[kani::proof]
 #[kani::unwind(14)]
+fn p_vtbl_where_sized_slot() {
+    type C = CGlueObjContainer<CBox<'static, Imp>, NoContext, TwhRetTmp<NoContext>>;
+    assert!(size_of::<TwhVtbl<C>>() == 3 * W, "C04 a provided method with a where clause is exported: one slot per exported method");
+    let v = <&TwhVtbl<C>>::default();
+    let w = words(v);
+    // (the where-clause method's getter is deliberately not named: were its slot dropped, this
+    // harness must still compile and fail on the size / order obligations)
+    assert!(w[0] == v.wh_first() as usize && w[2] == v.wh_third() as usize && w[1] != 0 && w[1] != w[0] && w[1] != w[2], "C04 vtable slots follow declaration order, including a where-clause method");
+    let obj = trait_obj!(Imp { v: 100 } as Twh);
+    let c = obj.ccont_ref();
+    let wv = words(obj.get_vtbl());
+    let mut f = obj.get_vtbl().wh_first();
+    f = unsafe { core::mem::transmute(wv[2]) };
+    assert!(unsafe { f(c) } == 100 ^ 33, "C04 slot 2 reaches the third declared method");
+    fn call_slot<Cn>(w: usize, c: &Cn, k: u64) -> u64 { let g: unsafe extern "C" fn(&Cn, u64) -> u64 = unsafe { core::mem::transmute(w) }; unsafe { g(c, k) } }
+    assert!(call_slot(wv[1], c, 5) == 100 ^ 32 ^ 5, "C04 slot 1 reaches the implementor's where-clause method");
+    kani::cover!(true, "end");
+}
+#[kani::proof]
+#[kani::unwind(14)]
 fn p_vtbl_skip_func() {
     type C = CGlueObjContainer<CBox<'static, Imp>, NoContext, TskRetTmp<NoContext>>;
     assert!(size_of::<TskVtbl<C>>() == 2 * W, "C04 exactly one function pointer per EXPORTED method: a #[skip_func] method has no slot");
